@@ -134,6 +134,16 @@ def run(ctx):
     from .C01 import gate_roles
     full, xyz = gate_roles(ctx)
     pushes = [(bi, t) for bi, t in five.calls() if cname(callee_name(t)) == 'Vec::push']
+    if not pushes:
+        # no push guarded by a gate helper (the candidates are filtered by an iterator chain): the gate as the symbolic run sees it
+        f5, tail5 = opw.solver_tail(ctx, five, True)
+        ctx.require(f5 is not None, 'the gate of the 5-DOF solver (neither a guarded push nor interpretable: %s)' % getattr(tail5, 'error', None))
+        cl = tail5.gate_clauses()
+        kinds = sorted({k for k, op, tol in cl})
+        gate_hit = [m for k, m in f5 if k in ('gate', 'gate-fresh')]
+        ctx.check(kinds == ['position'] and not gate_hit, 'R06.3', 'gate', five.where(0), five.path,
+                  'the 5-DOF candidates must pass the position-only gate (a full-pose gate rejects every answer that only matches the tool point)' +
+                  (': ' + gate_hit[0] if gate_hit else ''), found='gate clauses: %s' % kinds)
     for bi, t in pushes:
         gs = [(strip(g), opw.truth(k)) for g, k, sw in five.guard_terms(bi)]
         has_xyz = any(isinstance(g, tuple) and g[0] == 'call' and g[1] in {b.path for b in xyz} and v is True for g, v in gs)
